@@ -2622,9 +2622,9 @@ class RelevantPatientInformationQueryServiceClass(ServiceClass):
             LOGGER.info(f"Find SCP Response: 0x{rsp.Status:04X} (Cancel)")
             self.dimse.send_msg(rsp, cx_id)
             return
-        elif status[0] == STATUS_FAILURE:
-            # If failed, then rsp_identifier is None
-            LOGGER.info(f"Find SCP Response: 0x{rsp.Status:04X} (Failure)")
+        elif status[0] in (STATUS_FAILURE, STATUS_WARNING):
+            # If failed or warning, then rsp_identifier is None
+            LOGGER.info(f"Find SCP Response: 0x{rsp.Status:04X} ({status[0]})")
             self.dimse.send_msg(rsp, cx_id)
             return
         elif status[0] == STATUS_SUCCESS:
